@@ -17,9 +17,10 @@ import (
 const dagRel = "internal/dag"
 
 func init() {
-	register(&Prop{ID: "C13", Run: runC13,
-		Technique: "static analysis: nil-safety obligations on go/ssa (decoded-pointer sources, nil-inflow phis, errors.As failure edge, never-assigned fields) with per-parameter summaries to a fixed point; constant/table agreement; dominance guards of validity writes",
+	register(&Prop{ID: "C13", Run: runC13, NeedDeps: true,
+		Technique: "static analysis (whole program, dependencies included): nil-safety obligations on go/ssa (decoded-pointer sources, nil-inflow phis, errors.As failure edge, never-assigned fields) with per-parameter summaries to a fixed point; constant/table agreement; dominance guards of validity writes",
 		Decided: []string{
+			"in the third-party functions the loader packages reach through static calls (depth 3), a strings.Index-like result used as a slice bound or index is tested or implied non-negative on every way there, or every repository caller closes the open way (C13.lib-index-checked)",
 			"pointers that come out of the decoded definition (pointer fields, elements of []*stepDef/[]*funcDef/[]*conditionDef) are dereferenced only under a dominating non-nil test, also across calls (C13.nil-decoded)",
 			"a pointer whose phi has a nil inflow is not dereferenced without a test (C13.nil-phi)",
 			"no interface/func field that has no writer anywhere is invoked (C13.never-assigned)",
@@ -33,7 +34,7 @@ func init() {
 		NotDec: []string{
 			"termination and resource bounds of yaml / mapstructure / regexp",
 			"index and slice expressions whose safety needs value reasoning (length equalities, SplitN cardinality) — listed in the evidence for information only",
-			"panics inside dependencies; that an accepted DAG can really be executed beyond these validity facts",
+			"panics inside dependencies other than the untested-search-result class (C13.lib-index-checked), and anything they do beyond static calls of depth 3; that an accepted DAG can really be executed beyond these validity facts",
 		},
 	})
 }
@@ -55,6 +56,7 @@ func runC13(e *Env) {
 	c.assertOK()
 	c.valueBeforeErr()
 	c.constIndex()
+	c.libIndexChecked()
 	c.submatch()
 	c.serialisable()
 	c.validity()
